@@ -158,6 +158,25 @@ def prove(prop: str):
     return res
 
 
+def changed_lines(build_info, limit=160):
+    """source lines ("file.py:N") of the modelled functions whose digest differs from digests_baseline.json"""
+    try:
+        base = json.load(open(os.path.join(ROOT, "digests_baseline.json")))["digests"]
+    except Exception:  # noqa
+        return []
+    facts = (build_info or {}).get("facts", {})
+    cur, ranges = facts.get("digests", {}), facts.get("ranges", {})
+    out = []
+    for key, dg in cur.items():
+        if base.get(key) != dg and key in ranges:
+            fn = key.split(":")[0].split("/")[-1]
+            a, b = ranges[key]
+            if b - a > 120:      # a whole class: too coarse for a line-by-line search
+                continue
+            out += ["%s:%d" % (fn, n) for n in range(a, b + 1)]
+    return out[:limit]
+
+
 class Model:
     """runs ocaml/modelrun on batches of integer-list cases"""
 
